@@ -257,3 +257,111 @@ impl<J: Send + 'static> JobBrokerFacade<J> {
         self.0.verif_snapshot()
     }
 }
+
+pub mod rt {
+    //! `std::net::UdpSocket` / `std::time::Instant` look-alikes for the UDP actor runtime (hook
+    //! H4). With no environment installed they delegate to std.
+    use std::io;
+    use std::net::{SocketAddr, SocketAddrV4};
+    use std::sync::{Arc, RwLock};
+    use std::time::Duration;
+
+    pub trait NetEnv: Send + Sync + 'static {
+        fn bind(&self, addr: SocketAddrV4) -> io::Result<u64>;
+        fn set_read_timeout(&self, sock: u64, dur: Option<Duration>) -> io::Result<()>;
+        fn recv_from(&self, sock: u64, buf: &mut [u8]) -> io::Result<(usize, SocketAddr)>;
+        fn send_to(&self, sock: u64, buf: &[u8], dst: SocketAddrV4) -> io::Result<usize>;
+        /// virtual monotonic clock in nanoseconds
+        fn now_ns(&self) -> u128;
+    }
+
+    static ENV: RwLock<Option<Arc<dyn NetEnv>>> = RwLock::new(None);
+    pub fn install(env: Arc<dyn NetEnv>) {
+        *ENV.write().unwrap() = Some(env);
+    }
+    pub fn uninstall() {
+        *ENV.write().unwrap() = None;
+    }
+    fn env() -> Option<Arc<dyn NetEnv>> {
+        ENV.read().unwrap().clone()
+    }
+
+    pub enum UdpSocket {
+        Real(std::net::UdpSocket),
+        Virtual(Arc<dyn NetEnv>, u64),
+    }
+    impl UdpSocket {
+        pub fn bind(addr: SocketAddrV4) -> io::Result<UdpSocket> {
+            match env() {
+                Some(e) => {
+                    let h = e.bind(addr)?;
+                    Ok(UdpSocket::Virtual(e, h))
+                }
+                None => Ok(UdpSocket::Real(std::net::UdpSocket::bind(addr)?)),
+            }
+        }
+        pub fn set_read_timeout(&self, dur: Option<Duration>) -> io::Result<()> {
+            match self {
+                UdpSocket::Real(s) => s.set_read_timeout(dur),
+                UdpSocket::Virtual(e, h) => e.set_read_timeout(*h, dur),
+            }
+        }
+        pub fn recv_from(&self, buf: &mut [u8]) -> io::Result<(usize, SocketAddr)> {
+            match self {
+                UdpSocket::Real(s) => s.recv_from(buf),
+                UdpSocket::Virtual(e, h) => e.recv_from(*h, buf),
+            }
+        }
+        pub fn send_to(&self, buf: &[u8], dst: SocketAddrV4) -> io::Result<usize> {
+            match self {
+                UdpSocket::Real(s) => s.send_to(buf, dst),
+                UdpSocket::Virtual(e, h) => e.send_to(*h, buf, dst),
+            }
+        }
+    }
+
+    /// Either a real instant (no environment) or a virtual one (nanoseconds on the environment's
+    /// clock); the two are never mixed within one run.
+    #[derive(Clone, Copy, Debug, PartialEq, Eq, PartialOrd, Ord, Hash)]
+    pub struct Instant {
+        real: Option<std::time::Instant>,
+        virt: u128,
+    }
+    impl Instant {
+        pub fn now() -> Instant {
+            match env() {
+                Some(e) => Instant {
+                    real: None,
+                    virt: e.now_ns(),
+                },
+                None => Instant {
+                    real: Some(std::time::Instant::now()),
+                    virt: 0,
+                },
+            }
+        }
+        pub fn checked_duration_since(&self, earlier: Instant) -> Option<Duration> {
+            match (self.real, earlier.real) {
+                (Some(a), Some(b)) => a.checked_duration_since(b),
+                _ => self.virt.checked_sub(earlier.virt).map(|ns| {
+                    Duration::new((ns / 1_000_000_000) as u64, (ns % 1_000_000_000) as u32)
+                }),
+            }
+        }
+    }
+    impl std::ops::Add<Duration> for Instant {
+        type Output = Instant;
+        fn add(self, d: Duration) -> Instant {
+            match self.real {
+                Some(r) => Instant {
+                    real: Some(r + d),
+                    virt: 0,
+                },
+                None => Instant {
+                    real: None,
+                    virt: self.virt + d.as_nanos(),
+                },
+            }
+        }
+    }
+}
